@@ -505,7 +505,12 @@ def get_all_variables(expr: Expression) -> set[Variable]:
     """
     depth = _estimate_tree_depth(expr)
     if depth < _RECURSION_THRESHOLD:
-        return expr.get_variables()
+        try:
+            return expr.get_variables()
+        except RecursionError:
+            # The left-spine estimate misses depth that hangs off a right
+            # operand (e.g. ``K - acc`` for a long accumulation ``acc``)
+            pass
     return _get_variables_iterative(expr)
 
 
